@@ -57,7 +57,8 @@ func contentProps(accs, invs []string, x *Post, a string, c Content, y *Post) []
 	for _, t := range accs {
 		// AdminOnlyByOwner (accounts)
 		if (x.Perm[t] == "admin") != (y.Perm[t] == "admin") {
-			if !(pa == "owner" || (t == a && pa == "none" && c.K == "InviteJoin") || (t == a && pa == "admin")) {
+			viaAdminInvite := t == a && pa == "none" && c.K == "InviteJoin" && liveAny(x, c.I) && x.Inv[c.I].Perm == "admin"
+			if !(pa == "owner" || viaAdminInvite || (t == a && pa == "admin")) {
 				add("AdminOnlyByOwner", t, fmt.Sprintf("%s: %s -> %s by %s (%s)", t, x.Perm[t], y.Perm[t], a, pa))
 			}
 		}
